@@ -22,7 +22,7 @@ func tierN(tier string, quick, thorough int) int {
 // ---------------------------------------------------------------------------------------------
 // enumerated digraphs on n <= 4 nodes
 
-var enumTypes = []int{0, 1, 3, 6} // all implement IA and have a pointer slot
+var enumTypes = []int{0, 1, 3, 6}                // all implement IA and have a pointer slot
 var enumNames = []string{"b1", "d2", "m3", "p4"} // App's own name sorts between d2 and m3
 
 // EnumDigraph builds the scenario for graph number gi (bit i*n+j = edge i->j, no self loops are
